@@ -25,6 +25,8 @@ func indexedUnder(cfg Cfg, p string) bool {
 		return spec.Indexed
 	case 1:
 		return p == "K" || p == "N"
+	case 3:
+		return spec.Indexed || p == "P"
 	}
 	return true
 }
